@@ -14,7 +14,7 @@ names = args or sorted(os.path.basename(os.path.dirname(f)) for f in glob.glob("
 def one(name):
     d = os.path.join("/verif/seeded", name)
     meta = json.load(open(os.path.join(d, "meta.json")))
-    prop = meta["property"]
+    props = list(meta.get("checks", {}).keys()) or [meta["property"]]
     wt = tempfile.mkdtemp(prefix="ratewt-", dir="/tmp"); os.rmdir(wt)
     subprocess.check_call(["git", "-C", "/repo", "worktree", "add", "-q", "--detach", wt, "HEAD"])
     try:
@@ -25,11 +25,17 @@ def one(name):
                 return name, None, "patch no longer applies"
         res = []
         for s in seeds:
-            evd = tempfile.mkdtemp(prefix="rateev-", dir="/tmp")
-            env = dict(ENV, VERIF_REPO=wt, VERIF_SEED=str(s), VERIF_EVIDENCE_DIR=evd, VERIF_REPLAYS_DIR=os.path.join(evd, "replays"))
-            c = subprocess.run(["/verif/check", prop, "quick"], env=env, capture_output=True, text=True)
-            res.append(c.returncode)
-            shutil.rmtree(evd, ignore_errors=True)
+            rc = 0
+            for prop in props:  # caught if any of the checks it was assigned to reports a violation
+                evd = tempfile.mkdtemp(prefix="rateev-", dir="/tmp")
+                env = dict(ENV, VERIF_REPO=wt, VERIF_SEED=str(s), VERIF_EVIDENCE_DIR=evd, VERIF_REPLAYS_DIR=os.path.join(evd, "replays"))
+                c = subprocess.run(["/verif/check", prop, "quick"], env=env, capture_output=True, text=True)
+                shutil.rmtree(evd, ignore_errors=True)
+                if c.returncode == 1:
+                    rc = 1
+                    break
+                rc = max(rc, c.returncode)
+            res.append(rc)
         meta["catch_rate"] = {"seeds": seeds, "exit_codes": res, "caught": sum(1 for r in res if r == 1)}
         json.dump(meta, open(os.path.join(d, "meta.json"), "w"), indent=1)
         return name, res, ""
